@@ -111,12 +111,14 @@ class World:
         m["shared_memory"].SharedMemoryManager.reset_memories()
         self.ctrls = {}
         self.reserved = set()       # harness's own record: (nd, p) handed out by Reserve, not delivered yet
+        self._reserved_before = set()
         self.registered = set()     # harness's own record of the lifecycle: (nd, app) currently registered
         self.msg_id = 0
         self.live = {}              # label -> dict(gen, nd, app, blocks, next): suspended interleaved subroutines
         self.recent_free = {}       # nd -> physical ids released lately (generation bias only)
         self.last_model_ops = []
         self.anomalies = []
+        self._all_regs = None
         self.expected_reg = set()   # (nd, app) whose shared memory the manager should hold
         self.stopping = {}          # (nd, app) -> its physical qubits when the stepped stop began
 
@@ -206,6 +208,7 @@ class World:
     def apply(self, op):
         """returns outcome code: 0 done, 1 deferred, 10+class fault.  For Start / Step the model
         operations that ran between the two yield points are left in self.last_model_ops."""
+        self._reserved_before = set(self.reserved)
         M = self.m["messages"]
         kind = op[0]
         ex = self.ctrl(op[1])._executor
@@ -259,6 +262,7 @@ class World:
                 ex.script = [resp]
                 remote, sock = info[6], info[5]
                 delivered = False
+                deferred = False
                 try:
                     self._sub(nd, app,
                               f"set R0 1\narray R0 @{qa}\nset R0 {v}\nset R4 0\nstore R0 @{qa}[R4]\nset R0 10\narray R0 @{ra}\n"
@@ -266,6 +270,9 @@ class World:
                               f"recv_epr R0 R1 R2 R3\nset R4 0\nset R5 10\nwait_all @{ra}[R4:R5]\n")
                     delivered = True
                     self.reserved.discard((nd, info[2]))
+                except Deferred:
+                    deferred = True
+                    raise
                 finally:
                     # C13 does not model outstanding requests (C12 does): the undelivered
                     # response and its request are withdrawn by the harness
@@ -274,9 +281,11 @@ class World:
                     ex._pending_epr_responses.clear()
                     ex._epr_recv_requests.clear()
                     ex._epr_create_requests.clear()
-                    if not delivered and pending and info[2] in ex._used_physical_qubit_addresses \
+                    if not delivered and not deferred and pending and info[2] in ex._used_physical_qubit_addresses \
                             and not any(info[2] in um for um in ex._qubit_unit_modules.values()):
-                        # marked in use by the failed attempt, not mapped: still in flight
+                        # a mapping attempt that FAULTED marked the qubit in use, not mapped: the response
+                        # stays pending, the qubit is still in flight.  (A merely deferred response must not
+                        # have marked anything: the oracle sees such a mark as in-use != mapped.)
                         self.reserved.add((nd, info[2]))
             else:
                 raise AssertionError(kind)
@@ -295,6 +304,23 @@ class World:
         return 0
 
     # ------------------------------------------------------------------ observing
+    def _regs_effective(self, ex, app):
+        """the registers as the application's subroutines see them: through Executor._get_register
+        (not by reading _registers: an implementation may keep them elsewhere)"""
+        if self._all_regs is None:
+            Register = self.m["executor"].operand.Register
+            RegisterName = self.m["encoding"].RegisterName
+            self._all_regs = [(name.value, i, Register(name, i)) for name in RegisterName for i in range(16)]
+        out = {}
+        for bank, i, reg in self._all_regs:
+            try:
+                v = ex._get_register(app, reg)
+            except KeyError:
+                return {}
+            if v is not None:
+                out[(bank, i)] = v
+        return out
+
     @staticmethod
     def _regs(groups):
         out = {}
@@ -315,7 +341,7 @@ class World:
             keysets[nd] = ks
             for app in sorted(set().union(*ks.values())):
                 um = list(ex._qubit_unit_modules.get(app, []))
-                regs = self._regs(ex._registers[app]) if app in ex._registers else {}
+                regs = self._regs_effective(ex, app) if app in ex._registers else {}
                 arrs = {a: list(l) for a, l in ex._app_arrays[app]._arrays.items()} if app in ex._app_arrays else {}
                 if app in ex._shared_memories:
                     sh = ex._shared_memories[app]
@@ -380,6 +406,21 @@ class World:
         if op[0] == "Init" and me in before["apps"] and (out == 0 or after["apps"].get(me) != before["apps"][me]):
             bad.append(f"registering application id {me} that IS registered was accepted or changed its state "
                        f"(outcome {out}): {before['apps'][me]} -> {after['apps'].get(me)}")
+        if op[0] == "Init" and me not in before["apps"] and out == 0:
+            a = after["apps"].get(me, {})
+            stale = {k: v for k, v in a.items() if k != "um" and v}
+            if stale or any(p is not None for p in a.get("um", [])):
+                bad.append(f"application {me} registered (again) does not start with fresh memory: it sees {stale or a.get('um')} "
+                           "(state of a stopped application with that id was not released)")
+        if op[0] == "Keep" and contract_ok and me in before["apps"] and me not in self.stopping:
+            _, nd_, app_, v, qa, ra, info = op
+            um0 = before["apps"][me]["um"]
+            legal_p = (nd_, info[2]) in self._reserved_before or (nd_, info[2]) not in before["used"]
+            if 0 <= v < len(um0) and um0[v] is None and legal_p and qa != ra:
+                um1 = after["apps"].get(me, {}).get("um", [])
+                if out != 0 or um1[v:v + 1] != [info[2]]:
+                    bad.append(f"entanglement delivery of physical qubit {info[2]} (reserved from the pool / not in use) to the "
+                               f"unallocated virtual qubit {v} of {me} was not carried out (outcome {out}, unit module {um1})")
         if op[0] == "Init" and me not in before["apps"] and out != 0:
             bad.append(f"registering application id {me} that is not registered failed (outcome {out})")
         if op[0] == "Stop" and me in before["apps"]:
